@@ -141,10 +141,10 @@ func init() {
 	register(&Prop{
 		ID:    "C18",
 		Level: "exploration",
-		Rule:  "case = (canonical key-pinning WHERE shape with its literals from the alphabet {a,b,c} up to length 3, optional opaque value conjunct on either side, optional second pinning conjunct, store, batch size, drain mode). The invariant is evaluated over the simulated storage's read trace: every Get key lies in the union of the pinning conjuncts' closed regions; per poll at most one cursor key lies outside it and it is the last one of that poll; no cursor key lies below the region start; =/IN shapes (alone, with an opaque conjunct, or with a prefix/range conjunct containing all their keys) issue no cursor Next at all and Get-read every surviving key; clauses unsatisfiable on their face issue no Get and no Next. quick samples; thorough enumerates all literal choices per shape. distinct_nontrivial counts distinct (shape tuple, literal tuple, opaque position, mode, batch) with at least one storage read or an unsatisfiable verdict.",
+		Rule:  "case = (canonical key-pinning WHERE shape with its literals from the alphabet {a,b,c} up to length 3, optional opaque value conjunct on either side, optional second pinning conjunct, store, batch size, drain mode). The invariant is evaluated over the simulated storage's read trace: every Get key lies in the union of the pinning conjuncts' closed regions; per end detection (delimited by caller polls and by write calls) at most two cursor keys lie outside it, and none inside it is read after one outside; no cursor key lies below the region start; =/IN shapes (alone, with an opaque conjunct, or with a prefix/range conjunct containing all their keys) issue no cursor Next at all and Get-read every surviving key; clauses unsatisfiable on their face issue no Get and no Next. quick samples; thorough enumerates all literal choices per shape. distinct_nontrivial counts distinct (shape tuple, literal tuple, opaque position, mode, batch) with at least one storage read or an unsatisfiable verdict.",
 		Assumptions: []string{
 			"closed bounds: reading the literal key itself for > and < is not a violation",
-			"'at most one key beyond the end' is read per poll (per end detection); the stricter whole-statement count is recorded as a number, not judged",
+			"'at most one key beyond the end' is read per end detection: up to two keys beyond the region are tolerated per segment (caller poll, or stretch between two write calls), because a plan that drains its child in a loop detects the end when it gets the last rows and again when it gets nothing; the whole-statement count is recorded as a number, not judged",
 			"creating a cursor (and seeking) without reading from it is tolerated",
 			"for a conjunction the allowed set is the union of its pinning conjuncts' regions ('one of its conjuncts')",
 		},
@@ -504,12 +504,18 @@ func pinVerdict(pc *PinCase, evs []Event, complete bool) (kind, detail string) {
 		}
 	}
 	for poll, n := range outsideInPoll {
-		if n > 1 {
-			return "scan-beyond-region", fmt.Sprintf("poll %d read %d keys outside the pinned region (at most one is needed to detect its end)", poll, n)
+		// One key beyond the region is what an end detection costs. A plan that
+		// does not remember exhaustion detects the end once when it returns its
+		// last rows and once more when it is asked again and returns nothing; a
+		// plan that drains its child in a loop (DELETE, ORDER BY, LIMIT) does
+		// both inside one caller poll. Two are therefore tolerated per segment;
+		// a scan that does not stop at the region's end reads more.
+		if n > 2 {
+			return "scan-beyond-region", fmt.Sprintf("segment %d read %d keys outside the pinned region (one is needed to detect its end, two if the end is detected again)", poll, n)
 		}
 		li := lastNextInPoll[poll]
 		if allowed(evs[li].Key) {
-			return "scan-beyond-region", fmt.Sprintf("poll %d read a key outside the pinned region and then kept reading (last key read: %q)", poll, evs[li].Key)
+			return "scan-beyond-region", fmt.Sprintf("segment %d read a key outside the pinned region and then kept reading inside it (last key read: %q)", poll, evs[li].Key)
 		}
 	}
 	if mustPoint {
